@@ -201,6 +201,8 @@ class PCACD(StreamingDetector):
             # Add new obs to test window
             if self.online_scaling is True:
                 next_obs = pd.DataFrame(self._reference_scaler.transform(X))
+            else:
+                next_obs = pd.DataFrame(X)
             self._test_window = pd.concat([self._test_window.iloc[1:, :], next_obs])
 
             # Project new observation onto PCs
